@@ -13,6 +13,20 @@ from . import tacdlib as T
 LEVEL = 'exploration'
 
 
+def _have_v6():
+    import socket
+    try:
+        s = socket.socket(socket.AF_INET6, socket.SOCK_STREAM)
+        s.bind(('::1', 0))
+        s.close()
+        return True
+    except OSError:
+        return False
+
+
+HAVE_V6 = _have_v6()
+
+
 def alpn_offers(r):
     long_with = ['p%d' % i for i in range(12)]
     long_with.insert(r.randint(0, 12), 'acme-tls/1')
@@ -32,6 +46,8 @@ def one_case(case):
     try:
         if case['listener'] == 'unix':
             listen = 'unix:%s/t.sock' % d
+        elif case['listener'] == 'tcp6':
+            listen = '[::1]:%d' % T.free_port()       # an IPv6 literal is written in brackets in --listen
         else:
             listen = '127.0.0.1:%d' % T.free_port()
         t = T.Tacd(d, listen, case['domain'], case['proof'], T.KT_NAME[case['key_type']], case['digest'],
@@ -53,12 +69,15 @@ def one_case(case):
             # some instances see many refused clients and are then asked again by a validating one
             again = case.get('refusals_then_valid', 0)
             if again:
+                if case['listener'] != 'unix':
+                    steps += [{'do': 'rst_storm', 'count': 600, 'connect_tries': 5}]
                 steps += [{'do': 'tls', 'alpn': case['foreign'][0], 'connect_tries': 5} for _ in range(again)]
                 steps += [{'do': 'tls', 'alpn': case['offers'][0], 'connect_tries': 5}]
             out = C.vtool('alpnclient', [{'target': listen, 'sni': case['want_name'], 'steps': steps, 'seed': case['i']}])
             st = out[0]['steps']
             if again:
-                extra = st[len(case['offers']) + len(case['foreign']):]
+                extra = [x for x in st[len(case['offers']) + len(case['foreign']):] if x.get('do') != 'rst_storm']
+                res['resets'] = sum(x.get('resets', 0) for x in st if x.get('do') == 'rst_storm')
                 st = st[:len(case['offers']) + len(case['foreign'])]
                 for s in extra[:-1]:
                     if s.get('connected') and (s.get('result') or {}).get('handshake_ok'):
@@ -115,7 +134,7 @@ def gen_cases(tier):
             'i': i, 'domain': domain, 'want_name': T.expected_alabel(domain),
             'proof': proofs[i][0], 'digest_hex': proofs[i][1],
             'key_type': kt, 'digest': dg,
-            'listener': 'unix' if i % 2 else 'tcp',
+            'listener': 'unix' if i % 2 else ('tcp6' if (HAVE_V6 and i % 8 == 4) else 'tcp'),
             'domain_via': vias[(i // 2) % 3], 'ext_via': vias[(i // 6) % 3],
             'offers': offers, 'foreign': [foreign[i % len(foreign)]],
             'tls_limits': [{}, {'max_tls': '1.2'}, {}, {'max_tls': '1.2'}] if i % 2 == 0 else [{'max_tls': '1.2'}, {}, {}, {}],
@@ -134,6 +153,9 @@ def run(tier):
         chk.evaluations += 1
         chk.count('handshakes_judged', res['observed'])
         chk.count('foreign_only_refused', res['refused'])
+        chk.count('abortive_closes_before_a_valid_handshake', res.get('resets', 0))
+        if res['observed']:
+            chk.count('listener_' + c['listener'])
         for ver, nn in (res.get('versions') or {}).items():
             chk.count('handshakes_negotiated_%s' % ver, nn)
         if res['observed']:
@@ -160,7 +182,7 @@ def run(tier):
                     cls = cls.replace(tok, '<v>')
             sig = 'C16|%s|%s' % (kind, cls)
             chk.violation(sig, '%s (domain %r, key %s, digest %s, %s listener)' % (p, c['domain'], c['key_type'], c['digest'], c['listener']), res)
-    chk.rule = ('one tacd instance per case (random domain incl. IDN/mixed case, daemon-rendered digest, key type x digest, '
+    chk.rule = ('one tacd instance per case (listeners: IPv4, bracketed IPv6 literal, unix socket; random domain incl. IDN/mixed case, daemon-rendered digest, key type x digest, '
                 'listener, input channel); distinct = (key type, digest, listener, domain channel, extension channel, domain class) '
                 'tuples for which at least one handshake was judged')
     chk.assumptions = ['the harness client reports what OpenSSL negotiated', 'expected A-labels from Python punycode codec']
